@@ -38,7 +38,8 @@ type RValue struct {
 	t    types.Type // nil => invalid Value
 	p    *Value
 	addr bool
-	ro   bool
+	ro   bool // read-only: obtained through an unexported field (sticky) or an embedded unexported field
+	sro  bool // the sticky part of ro (reflect's flagStickyRO); an exported field of an embedded unexported struct is settable again
 }
 
 const (
@@ -526,7 +527,7 @@ func (i *Interp) registerReflect() {
 		if !v.addr {
 			i.rpanic("reflect.Value.Addr of unaddressable value")
 		}
-		return RValue{t: i.canon.canon(types.NewPointer(v.t)), p: newCell(v.p), ro: v.ro}
+		return RValue{t: i.canon.canon(types.NewPointer(v.t)), p: newCell(v.p), ro: v.ro, sro: v.sro}
 	})
 	M("Interface", func(fr *frame, v RValue, a []Value) Value {
 		if v.t == nil {
@@ -582,12 +583,12 @@ func (i *Interp) registerReflect() {
 			if k < 0 || k >= len(x.a) {
 				i.rpanic("reflect: slice index out of range")
 			}
-			return RValue{t: i.canon.canon(i.elemOfContainer(v)), p: &x.a[k], addr: true, ro: v.ro}
+			return RValue{t: i.canon.canon(i.elemOfContainer(v)), p: &x.a[k], addr: true, ro: v.ro, sro: v.sro}
 		case Array:
 			if k < 0 || k >= len(x) {
 				i.rpanic("reflect: array index out of range")
 			}
-			return RValue{t: i.canon.canon(i.elemOfContainer(v)), p: &x[k], addr: v.addr, ro: v.ro}
+			return RValue{t: i.canon.canon(i.elemOfContainer(v)), p: &x[k], addr: v.addr, ro: v.ro, sro: v.sro}
 		case string, *SymStr:
 			if k < 0 || k >= strLen(x) {
 				i.rpanic("reflect: string index out of range")
@@ -602,7 +603,10 @@ func (i *Interp) registerReflect() {
 		st := v.t.Underlying().(*types.Struct)
 		s := v.get().(Struct)
 		f := st.Field(k)
-		return RValue{t: i.canon.canon(f.Type()), p: &s[k], addr: v.addr, ro: v.ro || !f.Exported()}
+		// as reflect.Value.Field: only the sticky read-only bit is inherited; an unexported embedded
+		// field is read-only itself but its exported fields are not
+		sticky := v.sro || (!f.Exported() && !f.Embedded())
+		return RValue{t: i.canon.canon(f.Type()), p: &s[k], addr: v.addr, ro: sticky || !f.Exported(), sro: sticky}
 	})
 	M("NumField", func(fr *frame, v RValue, a []Value) Value {
 		return int64(v.t.Underlying().(*types.Struct).NumFields())
@@ -858,14 +862,14 @@ func (i *Interp) rvElem(v RValue) Value {
 		if p == nil {
 			return RValue{}
 		}
-		return RValue{t: i.canon.canon(u.Elem()), p: p, addr: true, ro: v.ro}
+		return RValue{t: i.canon.canon(u.Elem()), p: p, addr: true, ro: v.ro, sro: v.sro}
 	case *types.Interface:
 		x := v.get().(Iface)
 		if x.t == nil {
 			return RValue{}
 		}
 		r := i.rv(x.t, x.v)
-		r.ro = v.ro
+		r.ro, r.sro = v.ro, v.sro
 		return r
 	}
 	i.rpanic("call of reflect.Value.Elem on " + v.t.String() + " Value")
